@@ -62,7 +62,7 @@ struct ETok {
 fn render(items: &[String], seps: &[&str]) -> (String, Vec<ETok>) {
     let mut text = String::new();
     let (mut line, mut col) = (1usize, 1usize);
-    let mut exp = vec![];
+    let mut exp: Vec<ETok> = vec![];
     let mut advance = |s: &str, line: &mut usize, col: &mut usize, text: &mut String| {
         for ch in s.chars() {
             text.push(ch);
@@ -76,8 +76,14 @@ fn render(items: &[String], seps: &[&str]) -> (String, Vec<ETok>) {
     };
     advance(seps[0], &mut line, &mut col, &mut text);
     for (k, it) in items.iter().enumerate() {
-        for Tok { separator, text: t, offset } in lex::subtokens(it) {
-            exp.push(ETok { separator, text: t, line, col: col + offset });
+        if k > 0 && lex::is_sign(&items[k - 1]) && lex::is_number(it) {
+            // the tokenizer delivers a signed number as ONE token at the place of its sign, whatever
+            // separates the two lexical items
+            exp.last_mut().unwrap().text.push_str(it);
+        } else {
+            for Tok { separator, text: t, offset } in lex::subtokens(it) {
+                exp.push(ETok { separator, text: t, line, col: col + offset });
+            }
         }
         advance(it, &mut line, &mut col, &mut text);
         advance(seps[k + 1], &mut line, &mut col, &mut text);
@@ -185,7 +191,11 @@ fn check_layout_raw(seed: &Seed, devs: &[(usize, usize)], alpha: &[(&'static str
 
 fn allowed(seed: &Seed, b: usize, sep: &str) -> bool {
     if !sep.is_empty() {
-        // a line comment swallows the rest of the line: fine at any boundary, it ends with a newline
+        // a line comment swallows the rest of the line: fine at any boundary, it ends with a newline -
+        // except right behind a sign, where its hyphens would start the comment one character early
+        if sep.starts_with('-') && b > 0 && seed.items[b - 1].ends_with('-') {
+            return false;
+        }
         return true;
     }
     // the empty separator only where the neighbours stay distinct lexical items
